@@ -565,10 +565,10 @@ involved in `p` (it reused it and was told to fetch the state from `c1.net1`'s p
 removes the state from its pool.  What IS guaranteed for workers outside the scope: nothing about their dependants; only
 that the request touches the cleaning worker's own pool (`sc = ["own"]`), so copies in other pools stay. -/
 theorem cross_swarm_dependant_in_flight :
-    WellFormed exCross 4 ∧ ¬ OneScope exCross ∧ InScope exCross 0 1 = false ∧
-    1 ∈ involved exCross exX3 0 ∧ (5, ["vm1"]) ∈ (exCross.node 1).cleanup ∧ pcNode (exX3.wd 1).pc = some 5 ∧
-    Event.door "c1.net1" "unset" [("vm1", "p")] ["own"] true ∈ (resume exCross exX3 0 exPass 100).2 := by
-  decide +kernel
+    (WellFormed exCross 4 ∧ ¬ OneScope exCross ∧ InScope exCross 0 1 = false ∧ (5, ["vm1"]) ∈ (exCross.node 1).cleanup) ∧
+    (1 ∈ involved exCross exX3 0 ∧ pcNode (exX3.wd 1).pc = some 5) ∧
+    Event.door "c1.net1" "unset" [("vm1", "p")] ["own"] true ∈ (resume exCross exX3 0 exPass 100).2 :=
+  ⟨by decide +kernel, by decide +kernel, by decide +kernel⟩
 
 example : ReachC exCross 4 [] exX3 :=
   reachC_runSched exCross 4 [] 100 (by decide) _ (by decide) _ ReachC.init
@@ -581,13 +581,12 @@ net1 finds itself the only involved worker and removes the state; afterwards net
 net1's pool.  What IS guaranteed for a worker that is not involved: it has not picked any copy of `p` (definition of
 `involved`), and the request touches net1's own pool only. -/
 theorem lazy_unpicked_dependant_starts_after_unset :
-    WellFormed exLazyB 6 ∧ OneScope exLazyB ∧
-    exB2.hidden = [2, 4] ∧ involved exLazyB exB2 0 = [0] ∧ (3, ["vm1"]) ∈ (exLazyB.node 1).cleanup ∧
-    (exB2.nd 3).finished = none ∧
+    (WellFormed exLazyB 6 ∧ OneScope exLazyB ∧ (3, ["vm1"]) ∈ (exLazyB.node 1).cleanup) ∧
+    (exB2.hidden = [2, 4] ∧ involved exLazyB exB2 0 = [0] ∧ (exB2.nd 3).finished = none) ∧
     Event.door "net1" "unset" [("vm1", "p")] ["own"] true ∈ (resume exLazyB exB2 0 exPass 100).2 ∧
     Event.start "net2" "1" "2a1" [("vm1", ":/pool/shared net2:/pool/swarm net1:/pool/swarm")] 1 ∈
-      (resume exLazyB exB3 1 exPass 100).2 := by
-  decide +kernel
+      (resume exLazyB exB3 1 exPass 100).2 :=
+  ⟨by decide +kernel, by decide +kernel, by decide +kernel, by decide +kernel⟩
 
 example : ReachH exLazyB 6 [] [0, 1, 2, 3, 4, 5] exB2 := reachH_runSched exLazyB 6 [] _ 100 _ _ ReachH.init
 
